@@ -59,7 +59,27 @@ def d1(cx: Cx, ob: Ob) -> None:
                 # splits at self.delimiter), so expand would raise the ValueError that is_curie answers with False
                 ob.site(f"{where(fn, line)} {fn.qualname}", "shortcut: no delimiter in the string -> False")
             else:
-                ob.undecide(f"is_curie returns `{show(t)[:60]}`, not a None-test")
+                # a direct prefix test: <delimiter found> and <head> in synonym_to_prefix - the same answer as
+                # "expand(s) is not None" exactly when the string is cut at the FIRST delimiter (as _split does)
+                cuts = [c for c in subterms(t) if op(c) == "call" and op(c[1]) == "attr" and c[1][1] == arg and c[1][2] in ("partition", "rpartition", "split", "rsplit")]
+                if cuts and all(c[2][:1] == (("attr", me, "delimiter"),) for c in cuts):
+                    main = True
+                    ob.site(f"{where(fn, line)} {fn.qualname}", f"direct prefix test via str.{cuts[0][1][2]}")
+                    if any(c[1][2] in ("rpartition", "rsplit") for c in cuts):
+                        ob.violate(
+                            fn.qualname,
+                            where(fn, line),
+                            f"is_curie cuts its argument with str.{[c[1][2] for c in cuts if c[1][2] in ('rpartition', 'rsplit')][0]}, i.e. at the LAST delimiter, while parse_curie / expand cut at the first: for identifiers containing the delimiter the two disagree",
+                            witness="expand('GO:GO:0000001') resolves prefix 'GO', is_curie looks up 'GO:GO' and says False",
+                            detail="last-occurrence",
+                        )
+                    elif any(c[1][2] == "split" and not (len(c[2]) > 1 and is_const(c[2][1], 1)) and not is_const(dict(c[3]).get("maxsplit"), 1) for c in cuts):
+                        ob.undecide("is_curie splits at every delimiter")
+                    tabs = [x for x in subterms(t) if op(x) == "cmp" and x[1] == "in" and op(x[3]) == "attr" and x[3][1] == me]
+                    if not tabs or any(x[3][2] not in ("synonym_to_prefix", "prefix_map") for x in tabs):
+                        ob.undecide(f"is_curie tests `{show(t)[:60]}`")
+                else:
+                    ob.undecide(f"is_curie returns `{show(t)[:60]}`, not a None-test")
             continue
         main = True
         if self_call(x, me) and x[1][2] in ("expand", "parse_curie", "expand_strict") and x[2][:1] == (arg,):
